@@ -251,8 +251,8 @@ macro_rules! with_1d {
                 let d = data.clone().into_dimensionality::<$d>().unwrap();
                 let q = xs.clone().into_dimensionality::<$dq>().unwrap();
                 let ip = nimc::valid_build!($out, Interp1DBuilder::new(d).strategy($strat).build(), return);
-                let reference = ip.interp_array(&q).expect("in range").into_dyn();
-                let reference = Some(&reference);
+                let reference = match catch(|| ip.interp_array(&q)) { Ok(Ok(r)) => Some(r.into_dyn()), _ => None };
+                let reference = reference.as_ref();
                 let key = format!("{}:{}x{}", job.key(), stringify!($d), stringify!($dq));
                 let case = |extra: Vec<(&str, Json)>| {
                     let mut v = vec![("call", Json::str("Interp1D::interp_array_into")), ("data_dim", Json::str(stringify!($d))), ("query_dim", Json::str(stringify!($dq))), ("data_shape", Json::usizes(&job.data_shape)), ("query_shape", Json::usizes(&job.query_shape)), ("strategy", Json::str(job.strat))];
@@ -315,8 +315,8 @@ fn run_1d_static_interp_into(job: &Job, out: &mut JobOut) {
                 let d = data_nd(&job.data_shape).into_dimensionality::<$d>().unwrap();
               for x in [1.25, (job.data_shape[0] - 1) as f64, 0.0] {
                 let ip = nimc::valid_build!(out, Interp1DBuilder::new(d.clone()).build(), return);
-                let reference = ip.interp(x).expect("in range").into_dyn();
-                let reference = Some(&reference);
+                let reference = match catch(|| ip.interp(x)) { Ok(Ok(r)) => Some(r.into_dyn()), _ => None };
+                let reference = reference.as_ref();
                 let key = format!("{}:interp_into({},x={x})", job.key(), stringify!($d));
                 let case = |extra: Vec<(&str, Json)>| {
                     let mut v = vec![("call", Json::str("Interp1D::interp_into")), ("data_dim", Json::str(stringify!($d))), ("data_shape", Json::usizes(&job.data_shape))];
@@ -382,8 +382,8 @@ fn run_2d(job: &Job, out: &mut JobOut) {
                 let qx = xs.clone().into_dimensionality::<$dq>().unwrap();
                 let qy = ys.clone().into_dimensionality::<$dq>().unwrap();
                 let ip = nimc::valid_build!(out, Interp2DBuilder::new(d).strategy(Bilinear::new()).build(), return);
-                let reference = ip.interp_array(&qx, &qy).expect("in range").into_dyn();
-                let reference = Some(&reference);
+                let reference = match catch(|| ip.interp_array(&qx, &qy)) { Ok(Ok(r)) => Some(r.into_dyn()), _ => None };
+                let reference = reference.as_ref();
                 let key = format!("{}:{}x{}", job.key(), stringify!($d), stringify!($dq));
                 let case = |extra: Vec<(&str, Json)>| {
                     let mut v = vec![("call", Json::str("Interp2D::interp_array_into")), ("data_dim", Json::str(stringify!($d))), ("query_dim", Json::str(stringify!($dq))), ("data_shape", Json::usizes(&job.data_shape)), ("query_shape", Json::usizes(&job.query_shape))];
@@ -478,8 +478,8 @@ fn run_2d(job: &Job, out: &mut JobOut) {
     {
       for (qx0, qy0) in [(1.25, 0.75), ((job.data_shape[0] - 1) as f64, (job.data_shape[1] - 1) as f64), (0.0, (job.data_shape[1] - 1) as f64)] {
         let ip = nimc::valid_build!(out, Interp2DBuilder::new(data.clone()).build(), return);
-        let reference = ip.interp(qx0, qy0).expect("in range");
-        let reference = Some(&reference);
+        let reference = match catch(|| ip.interp(qx0, qy0)) { Ok(Ok(r)) => Some(r), _ => None };
+        let reference = reference.as_ref();
         let key = format!("{}:interp_into(dyn,{qx0},{qy0})", job.key());
         let case = |extra: Vec<(&str, Json)>| {
             let mut v = vec![("call", Json::str("Interp2D::interp_into")), ("data_shape", Json::usizes(&job.data_shape))];
@@ -569,8 +569,8 @@ fn run_user_strategy(two_d: bool, data_shape: &[usize], query_shape: &[usize], o
         macro_rules! go {
             ($dq:ty) => {
                 if let (Ok(qx), Ok(qy)) = (xs.clone().into_dimensionality::<$dq>(), ys.clone().into_dimensionality::<$dq>()) {
-                    let reference = ip.interp_array(&qx, &qy).expect("in range").into_dyn();
-                    probe(out, &format!("{key}:{}", stringify!($dq)), &expected, nq, Some(&reference), &|win: ArrayViewMutD<f64>| -> CallRes { Some(catch(|| ip.interp_array_into(&qx, &qy, win))) }, &case);
+                    let reference = match catch(|| ip.interp_array(&qx, &qy)) { Ok(Ok(r)) => Some(r.into_dyn()), _ => None };
+                    probe(out, &format!("{key}:{}", stringify!($dq)), &expected, nq, reference.as_ref(), &|win: ArrayViewMutD<f64>| -> CallRes { Some(catch(|| ip.interp_array_into(&qx, &qy, win))) }, &case);
                 }
             };
         }
@@ -583,8 +583,8 @@ fn run_user_strategy(two_d: bool, data_shape: &[usize], query_shape: &[usize], o
         macro_rules! go {
             ($dq:ty) => {
                 if let Ok(q) = xs.clone().into_dimensionality::<$dq>() {
-                    let reference = ip.interp_array(&q).expect("in range").into_dyn();
-                    probe(out, &format!("{key}:{}", stringify!($dq)), &expected, nq, Some(&reference), &|win: ArrayViewMutD<f64>| -> CallRes { Some(catch(|| ip.interp_array_into(&q, win))) }, &case);
+                    let reference = match catch(|| ip.interp_array(&q)) { Ok(Ok(r)) => Some(r.into_dyn()), _ => None };
+                    probe(out, &format!("{key}:{}", stringify!($dq)), &expected, nq, reference.as_ref(), &|win: ArrayViewMutD<f64>| -> CallRes { Some(catch(|| ip.interp_array_into(&q, win))) }, &case);
                 }
             };
         }
